@@ -694,9 +694,13 @@ func (le *LockEngine) SameCriticalSection(c *types.Var, a, b ssa.Instruction) (b
 				reached = true
 				return
 			}
+			if ins == a {
+				// a is executed again (loop): the fresh execution supersedes this one
+				return
+			}
 			if le.releasesClass(c, ins) {
 				// a release: paths continuing from here to b would be a violation
-				if le.canReach(blk, i+1, b) {
+				if le.canReachAvoiding(blk, i+1, b, a) {
 					bad = ins
 				}
 				return
@@ -717,6 +721,35 @@ func (le *LockEngine) SameCriticalSection(c *types.Var, a, b ssa.Instruction) (b
 		return false, "second site not reachable from first"
 	}
 	return true, ""
+}
+
+// canReachAvoiding: target is reachable from (blk, idx) along a path that does not execute avoid.
+func (le *LockEngine) canReachAvoiding(blk *ssa.BasicBlock, idx int, target, avoid ssa.Instruction) bool {
+	seen := map[*ssa.BasicBlock]bool{}
+	found := false
+	var walk func(b *ssa.BasicBlock, from int)
+	walk = func(b *ssa.BasicBlock, from int) {
+		if found {
+			return
+		}
+		for i := from; i < len(b.Instrs); i++ {
+			if b.Instrs[i] == target {
+				found = true
+				return
+			}
+			if b.Instrs[i] == avoid {
+				return
+			}
+		}
+		for _, s := range b.Succs {
+			if !seen[s] {
+				seen[s] = true
+				walk(s, 0)
+			}
+		}
+	}
+	walk(blk, idx)
+	return found
 }
 
 func (le *LockEngine) canReach(blk *ssa.BasicBlock, idx int, target ssa.Instruction) bool {
